@@ -600,7 +600,7 @@ class FieldValueComponentStringEnumOption(FieldValueComponentStringEnum):
 
 @attr.s
 class FieldValueComponentString(FieldValueComponentKeyValueBase):
-    value = attr.ib(validator=attr.validators.optional(attr.validators.instance_of(six.string_types)))
+    value = attr.ib(validator=attr.validators.instance_of(six.string_types))
 
     @classmethod
     @abc.abstractmethod
